@@ -244,7 +244,7 @@ def run(ctx: Ctx):
                         continue
                     iv = leaf.input_value
                     ok = reached is iv or (reached == iv and type(reached) is type(iv)) or \
-                        (isinstance(iv, tuple) and not isinstance(reached, (str, bytes)) and _same_elems(reached, iv))
+                        (isinstance(iv, tuple) and _same_elems(reached, iv))
                     if not ok:
                         ctx.fail(f"trail-wrong-target:{m}", f"trail {list(trail)!r} reaches {reached!r:.60}, error reports {iv!r:.60}",
                                  {"hint": repr(rec.spec.hint)[:200], "datum": morph.enc(rec.datum), "mode": m})
@@ -271,7 +271,7 @@ def run(ctx: Ctx):
         for k in range(1, min(max_k, len(pos)) + 1):
             combos = list(itertools.combinations(pos, k))
             ctx.rng.shuffle(combos)
-            subsets += combos[: (4 if ctx.tier == "quick" else 30)]
+            subsets += combos[: (10 if ctx.tier == "quick" else 40)]
         for paths in subsets:
             planted_case(ctx, eng, spec, datum, list(paths), "generated")
         if len(ctx.samples) < 4:
